@@ -24,7 +24,7 @@ ASSUMPTIONS = ['slice-level operators are decided by C10-C13, C16 (here they ser
 
 CONFIGS = [
     {'npts': [6, 8, 7, 6], 'start': 'flux_surface', 'iota': 0.0, 'mn': [2, 1]},
-    {'npts': [6, 8, 7, 6], 'start': 'v_parallel', 'iota': 0.8, 'mn': [3, -2]},
+    {'npts': [6, 8, 7, 6], 'start': 'v_parallel', 'iota': 0.8, 'mn': [3, -2], 'R0': 3.0},     # tight torus: several z cells per step, b_z strongly r dependent
     {'npts': [6, 8, 7, 6], 'start': 'poloidal', 'iota': 'profile', 'mn': [2, 1], 'deg': [3, 3, 4, 2]},     # z and v with their own spline degree (Spline2D needs theta and r both cubic-uniform or both not)
     {'npts': [7, 5, 8, 7], 'start': 'v_parallel', 'iota': 0.8, 'mn': [2, 1]},
 ]
@@ -124,7 +124,7 @@ def _pipeline(cfg, nprocs, stages='all'):
             f, c, t = setupFromFile(cfg['_dir'], comm=comm, layout=cfg['start'], allocateSaveMemory=True)
         else:
             f, c, t = setupCylindricalGrid(layout=cfg['start'], npts=list(npts), comm=comm, allocateSaveMemory=True,
-                                           iotaVal=iv, eps=0.1, m=cfg['mn'][0], n=cfg['mn'][1], vMin=-6.1, splineDegrees=list(cfg.get('deg', [3, 3, 3, 3])), **GEN)
+                                           iotaVal=iv, eps=0.1, m=cfg['mn'][0], n=cfg['mn'][1], vMin=-6.1, splineDegrees=list(cfg.get('deg', [3, 3, 3, 3])), **dict(GEN, **({'R0': cfg['R0'], 'zMax': 2 * 3.141592653589793 * cfg['R0']} if 'R0' in cfg else {})))
         if cfg['iota'] == 'profile':
             c.iota = lambda rr=None: 0.8 * (1 + 0.05 * np.asarray(rr, dtype=float))
         eta = f.eta_grid
@@ -325,7 +325,7 @@ def _driver(cfg, grid, folder):
     import fullSimulation
     d = env.scratch_dir('c05')
     try:
-        sim.write_constants(os.path.join(d, 'c.json'), npts=cfg['npts'], dt=2, iotaVal=cfg['iota'], eps=1e-2, m=2, n=1, vMin=-6.1, splineDegrees=list(cfg.get('deg', [3, 3, 3, 3])), **GEN)
+        sim.write_constants(os.path.join(d, 'c.json'), npts=cfg['npts'], dt=2, iotaVal=cfg['iota'], eps=1e-2, m=2, n=1, vMin=-6.1, splineDegrees=list(cfg.get('deg', [3, 3, 3, 3])), **dict(GEN, **({'R0': cfg['R0'], 'zMax': 2 * 3.141592653589793 * cfg['R0']} if 'R0' in cfg else {})))
         tend = 2 * cfg['steps']
 
         def fn(r):
